@@ -135,6 +135,7 @@ pub fn engine_by_name(name: &str) -> Option<Box<dyn Engine>> {
     match name {
         "fsfault" => Some(Box::new(crate::engine_fsfault::FsFault)),
         "cli" => Some(Box::new(crate::engine_cli::Cli)),
+        "imports" => Some(Box::new(crate::engine_imports::Imports)),
         _ => None,
     }
 }
